@@ -159,3 +159,49 @@ func VX_C18_QPSRace(args []int) {
 	vxAssert(adm <= T+int(q.once)+1, "admitted <= capacity + refill of the tick + 1 slack")
 	vxCover("c18.qpsrace")
 }
+
+func init() { vxRegister("VX_C18_QPSSession", VX_C18_QPSSession) }
+
+// VX_C18_QPSSession: with a total rate limit of C per interval and no refill,
+// of k calls/pushes received on a session exactly C are handled; every
+// rejected CALL receives an error reply and is not handled. args: C, k, kind(0 calls, 1 pushes)
+func VX_C18_QPSSession(args []int) {
+	C, k, kind := args[0], args[1], args[2]
+	o := New(LimitConfig{MaxTotalQPS: int32(C), QPSInterval: time.Second})
+	p := erpc.NewPeer(erpc.PeerConfig{}, o)
+	handled := 0
+	p.SetUnknownCall(func(ctx erpc.UnknownCallCtx) (interface{}, *erpc.Status) { handled++; return []byte("ok"), nil })
+	p.SetUnknownPush(func(ctx erpc.UnknownPushCtx) *erpc.Status { handled++; return nil })
+	conn := newVxConn("srv:1", "cli:2")
+	_, st := p.ServeConn(conn)
+	vxAssume(st.OK())
+	for j := 0; j < k; j++ {
+		mt := erpc.TypeCall
+		if kind == 1 {
+			mt = erpc.TypePush
+		}
+		conn.feed(vxFrame(mt, int32(j+1), "/any", []byte("x")))
+		vxWaitIdle()
+	}
+	want := k
+	if C < k {
+		want = C
+	}
+	vxAssert(handled == want, "exactly the admitted messages are handled")
+	if kind == 0 {
+		vxAssert(conn.nWrites() == k, "[C03] every CALL is answered")
+		okN, errN := 0, 0
+		for _, w := range conn.writes {
+			m, err := vxParse(w)
+			if err == nil && m.StatusOK() {
+				okN++
+			} else if err == nil {
+				errN++
+			}
+		}
+		vxAssert(okN == want && errN == k-want, "rejected calls receive an error reply instead of being handled")
+	} else {
+		vxAssert(conn.nWrites() == 0, "[C03] pushes are never answered")
+	}
+	vxCover("c18.qps-session")
+}
